@@ -33,7 +33,10 @@ TOL = 1e-12
 
 def gen_cases(tier, seed):
     n = 300 if tier == "quick" else 30000
-    return [{"seed": seed * 100043 + i} for i in range(n)]
+    cases = [{"seed": seed * 100043 + i} for i in range(n)]
+    # scale: direct-mode marginal tables with more than 2**16 joint degrees
+    cases += [{"seed": seed * 100043 + 700000 + i, "bigbox": True, "_cost": 25} for i in range(2 if tier == "quick" else 24)]
+    return cases
 
 
 def _table_fn(tab, calls):
@@ -86,6 +89,8 @@ def run_case(case):
     rng = random.Random(case["seed"])
     kind = rng.choice(["manual", "empirical", "function", "marginal_direct", "marginal_direct", "marginal_sampling", "dispatch_all"])
     T = rng.choice([1, 2, 2, 3])
+    if case.get("bigbox"):
+        kind, T = "marginal_direct", rng.choice([2, 3])
     sizes = [rng.choice([2, 3, 4]) for _ in range(T)]
     res.count("loaders")
     sample = {"loader": kind, "T": T}
@@ -219,6 +224,9 @@ def run_case(case):
         sampling = kind == "marginal_sampling"
         width = 4 if sampling else 7
         bounds = [(lo, lo + rng.randint(1, width)) for lo in (rng.randint(0, 3) for _ in range(T))]
+        if case.get("bigbox"):
+            bounds = [(0, rng.randint(257, 270)), (rng.choice([0, 1]), rng.randint(257, 262))] if T == 2 else [(0, rng.randint(41, 43))] * 3
+            res.count("direct_tables_beyond_65536_entries")
         shared = T >= 2 and rng.random() < 0.3
         if shared:
             # hostile but ordinary: the SAME callable object and the same bounds for several topologies (e.g. p = poisson(2.5); [p, p])
@@ -235,7 +243,7 @@ def run_case(case):
         for i, (lo, hi) in enumerate(bounds):
             if shared and i > 0:
                 fps.append(fps[0]); descr.append(descr[0]); continue
-            f, d = _marginal(rng, lo, hi, calls[i], force="np-int-histogram" if allint else None)
+            f, d = _marginal(rng, lo, hi, calls[i], force="np-int-histogram" if allint else ("table" if case.get("bigbox") else None))
             fps.append(f); descr.append(d)
         force_dtype.clear()
         params = {N.ARR_FP: fps, N.MOTIF_SIZES: sizes, N.LOW_HIGH_DEGREE_BOUND: bounds}
